@@ -178,7 +178,9 @@ fn rule_to_threshold(rule: Rule) -> Threshold {
     }
 }
 
-const GRID_P: [u128; 6] = [
+const GRID_P: [u128; 8] = [
+    666_666_666_666_666_666, // 2/3 as an 18-decimal fraction
+    555_555_555_555_555_555,
     500_000_000_000_000_000,
     500_000_001_000_000_000,
     510_000_000_000_000_000,
@@ -186,7 +188,8 @@ const GRID_P: [u128; 6] = [
     999_999_999_000_000_000,
     1_000_000_000_000_000_000,
 ];
-const GRID_Q: [u128; 5] = [
+const GRID_Q: [u128; 6] = [
+    333_333_333_333_333_333,
     1_000_000_000,
     10_000_000_000_000_000,
     400_000_000_000_000_000,
@@ -776,6 +779,10 @@ impl Ms {
                 for _ in 0..nr {
                     remove.push(if !members.is_empty() { rng.pick_cloned(&members) } else { rng.pick_cloned(&pl.actors) });
                 }
+                if rng.chance(1, 6) && !remove.is_empty() {
+                    let d = remove[0].clone();
+                    remove.push(d); // the same member named twice
+                }
                 let sender = if rng.chance(9, 10) { w.gadmin.clone() } else { any_actor(rng) };
                 (sender, Op::GroupUpdate { add, remove })
             }
@@ -1082,6 +1089,46 @@ impl Ms {
             }
         }
 
+        // ================= C03: the list queries report the same status / threshold / expiry =================
+        if prop == "C03" && !post.is_empty() {
+            for reverse in [false, true] {
+                let mut listed: Vec<ProposalResponse> = vec![];
+                let mut cursor: Option<u64> = None;
+                loop {
+                    let page: Res<cw3::ProposalListResponse> = if reverse {
+                        w.c.query(&w.ms, &cw3_fixed_multisig::msg::QueryMsg::ReverseProposals { start_before: cursor, limit: Some(30) })
+                    } else {
+                        w.c.query(&w.ms, &cw3_fixed_multisig::msg::QueryMsg::ListProposals { start_after: cursor, limit: Some(30) })
+                    };
+                    let Res::Ok(page) = page else { break };
+                    if page.proposals.is_empty() {
+                        break;
+                    }
+                    cursor = page.proposals.last().map(|p| p.id);
+                    listed.extend(page.proposals);
+                    if listed.len() > 200 {
+                        break;
+                    }
+                }
+                for p in &listed {
+                    let Some(o) = post.get(p.id as usize - 1) else { continue };
+                    let (rule, total) = to_rule(&p.threshold);
+                    h.out.oracle_checks += 1;
+                    if p.status != o.status || rule != o.rule || total != o.total || Exp::from(&p.expires) != o.expires {
+                        h.violate(
+                            &format!("C03/{kind:?}/list/listed-proposal-differs-from-point-query"),
+                            format!("{} proposal {}: listed status {:?} rule {:?} total {} expires {:?}; Proposal query says {:?} {:?} {} {:?}", if reverse { "ReverseProposals" } else { "ListProposals" }, p.id, p.status, rule, total, p.expires, o.status, o.rule, o.total, o.expires),
+                        );
+                        return false;
+                    }
+                }
+                if !h.check(listed.len() == post.len(), &format!("C03/{kind:?}/list/listing-incomplete"), || format!("{} of {} proposals listed", listed.len(), post.len())) {
+                    return false;
+                }
+            }
+            h.out.count("list_queries_compared_with_point_queries");
+        }
+
         // ================= C03: status = implied outcome =================
         if prop == "C03" {
             for (i, o) in post.iter().enumerate() {
@@ -1092,6 +1139,41 @@ impl Ms {
                     continue;
                 };
                 let t = tally(&o.ballots).unwrap();
+                if !rule_exact(o.rule) {
+                    // 10..18 decimals: the library may be up to one vote below the exact requirement,
+                    // never stricter than it
+                    h.out.count("observations_with_18_decimal_thresholds");
+                    let t1 = Tally { yes: t.yes.saturating_add(1), ..t };
+                    let within_one = if expired { pass_final(o.rule, o.total, t1) } else { pass_now(o.rule, o.total.max(1), t1) || pass_now(o.rule, o.total, t1) };
+                    let kindr = rule_kind(o.rule);
+                    h.out.oracle_checks += 1;
+                    match o.status {
+                        Status::Passed => {
+                            if t.yes == 0 || !(must_pass || within_one) {
+                                h.violate(&format!("C03/{kind:?}/{kindr}/passed-more-than-one-vote-below-threshold"), format!("proposal {} Passed; rule {:?} total {} tally {t:?} expired={expired}", m.id, o.rule, o.total));
+                                return false;
+                            }
+                        }
+                        Status::Open | Status::Rejected => {
+                            if must_pass && !m.executed && o.status == Status::Open {
+                                h.violate(&format!("C03/{kind:?}/{kindr}/open-but-decided"), format!("proposal {} Open; rule {:?} total {} tally {t:?} expired={expired}", m.id, o.rule, o.total));
+                                return false;
+                            }
+                            if o.status == Status::Open && expired {
+                                h.violate(&format!("C03/{kind:?}/{kindr}/open-but-decided"), format!("proposal {} Open after expiry", m.id));
+                                return false;
+                            }
+                        }
+                        Status::Executed => {
+                            if !m.executed {
+                                h.violate(&format!("C03/{kind:?}/{kindr}/executed-without-execute"), format!("proposal {}", m.id));
+                                return false;
+                            }
+                        }
+                        Status::Pending => {}
+                    }
+                    continue;
+                }
                 h.out.oracle_checks += 1;
                 h.out.state(&(rule_kind(o.rule), o.status as u8, expired, must_pass, may_reject, t.yes == 0, t.abstain > 0));
                 let kindr = rule_kind(o.rule);
@@ -1788,6 +1870,38 @@ impl Ms {
                 );
                 true
             }
+            // token-sized weights with an 18-decimal threshold: two votes short of 2/3 of 3e9
+            ("C03", 3) | ("C03", 4) | ("C03", 5) => {
+                let rule = match h.idx {
+                    3 => Rule::Pct(666_666_666_666_666_666),
+                    4 => Rule::Quorum(666_666_666_666_666_666, 333_333_333_333_333_333),
+                    _ => Rule::Quorum(555_555_555_555_555_555, 666_666_666_666_666_666),
+                };
+                let kind = if h.idx == 3 { Kind::Fixed } else { Kind::Flex };
+                let over = Override { kind, voters: vec![(pool().actors[0].clone(), 1_000_000_000), (pool().actors[1].clone(), 999_999_998), (pool().actors[2].clone(), 1_000_000_002)], rule, period: Duration::Height(10), executor: None, deposit: false };
+                self.play(
+                    h,
+                    over,
+                    vec![
+                        Act::Adv(1),
+                        Act::Do(0, prop_op(vec![ping(1, 0, hist)])),
+                        Act::Do(1, vote(1, Vote::Yes)), // 1_999_999_998 of 3e9: two short of 2/3
+                        Act::ByStranger(Op::Execute { id: 1 }),
+                        Act::Do(0, prop_op(vec![ping(2, 0, hist)])),
+                        Act::Do(1, vote(2, Vote::Yes)),
+                        Act::Do(2, vote(2, Vote::Abstain)),
+                        Act::ByStranger(Op::Execute { id: 2 }),
+                        Act::Do(1, prop_op(vec![ping(3, 0, hist)])), // 999_999_998 yes
+                        Act::Do(0, vote(3, Vote::No)),
+                        Act::Adv(10),
+                        Act::ByStranger(Op::Execute { id: 1 }),
+                        Act::ByStranger(Op::Execute { id: 3 }),
+                        Act::ByStranger(Op::Close { id: 1 }),
+                        Act::ByStranger(Op::Close { id: 3 }),
+                    ],
+                );
+                true
+            }
             _ => false,
         }
     }
@@ -1809,7 +1923,7 @@ impl Monitor for Ms {
     }
     fn mandatory(&self) -> Vec<&'static str> {
         match self.prop {
-            "C03" => vec!["directed_scenarios_completed", "histories_fixed", "histories_flex", "observed_open", "observed_passed", "observed_rejected", "executes_ok", "closes_ok", "passed_only_at_expiry_or_after", "tallies_all_abstain_or_no_yes"],
+            "C03" => vec!["directed_scenarios_completed", "observations_with_18_decimal_thresholds", "list_queries_compared_with_point_queries", "histories_fixed", "histories_flex", "observed_open", "observed_passed", "observed_rejected", "executes_ok", "closes_ok", "passed_only_at_expiry_or_after", "tallies_all_abstain_or_no_yes"],
             "C05" => vec![
                 "directed_scenarios_completed",
                 "reentrant_execute_calls_ok",
@@ -1868,7 +1982,7 @@ impl Monitor for Ms {
     fn assumptions(&self) -> Vec<&'static str> {
         vec![
             "cw-multi-test 2.0 dispatch/rollback semantics stand in for wasmd",
-            "thresholds use at most 9 decimals here (C04 covers 10-18)",
+            "thresholds with 10-18 decimals are judged with the one-vote tolerance of C04 (Passed needs the exact requirement minus at most one vote; never stricter than exact)",
             "a proposal whose ballots outweigh its reported total is not judged by C03 (that is a C06 violation)",
         ]
     }
